@@ -20,6 +20,10 @@ CLAIMS = {
     text="TLC runs every conditional program of the enumerated families on the LiquidInterp machine and checks in the model that the printed branch is the first arm whose condition holds under a declarative (order-free) reading of the condition tree, that unless negates, that or/and group as or-of-ands, that case picks the first arm holding an equal value and that equality/ordering are coherent on the pool; the harness renders every program on the real parser and compares.",
     note="bounded: 32-value pool, chains <= 4 arms, case <= 3 arms, and/or chains <= 4 atoms; multi-key object ordering excluded (unspecified iteration order).",
     tech=TECH_A, ref="DESIGN.md 7 C06"),
+ "C07": dict(
+    text="TLC enumerates every variable path up to the length bound over a nested datum and every array index around both ends, evaluates each on the LiquidInterp machine (model/find.rs semantics in LiquidValues) and checks zero-based/negative index meaning, first/last/size meaning and error-on-missing-step against declarative formulas; literal denotation is specified by canonical-decimal operators with an explicit digit-wise 64-bit range test; the harness renders every path and literal on the real parser and compares output or error.",
+    note="bounded: paths <= 3 steps (quick) / 4 (thorough), arrays 0..5, ASCII; multi-key object printing only required to succeed.",
+    tech=TECH_A, ref="DESIGN.md 7 C07"),
  "C18": dict(
     text="TLC explores every operation sequence of the explicit TLA+ specification LiquidRuntime up to the stated length from all 9 base maps, checks the declarative scope meaning against the delegation-chain form in every state, and every explored sequence is replayed on the real StackFrame/SandboxedStackFrame/GlobalFrame types with all lookups, roots, counters and register ownership compared after every operation.",
     note="bounded: length 3 (quick) / 4 exhaustive replay, 5 state-space, 6 reduced alphabet + random walks (thorough); values are scalars and one-key objects; trusted: TLC, the harness's encoding of observations.",
